@@ -39,16 +39,22 @@ def thread_scenario(rng):
     cmds.append("getall 4")
     return cmds
 
-def run_threads(exe, scen_lists, timeout=300):
+def run_threads(exe, scen_lists, timeout=300, pre=None):
     d = vlib.scratch_dir()
     try:
         files = []
+        prearg = []
+        if pre:
+            # process-wide settings issued by the main thread before the workers start
+            pp = os.path.join(d, "pre.txt")
+            with open(pp, "w") as f: f.write("\n".join(pre) + "\n")
+            prearg = ["--pre", pp]
         for i, cmds in enumerate(scen_lists):
             p = os.path.join(d, "s%d.txt" % i)
             with open(p, "w") as f: f.write("reset\n" + "\n".join(cmds) + "\n")
             files.append(p)
         env = dict(os.environ, TSAN_OPTIONS="halt_on_error=0 report_signal_unsafe=0 exitcode=0", LC_ALL="C")
-        cmd = [exe, "--threads", os.path.join(d, "root")] + files
+        cmd = [exe, "--threads"] + prearg + [os.path.join(d, "root")] + files
         try:
             p = subprocess.run(cmd, stdout=subprocess.PIPE, stderr=subprocess.PIPE, timeout=timeout, env=env)
         except subprocess.TimeoutExpired:
